@@ -6,6 +6,10 @@ specification S on shapes described on stdin.
 
   predict <shape>         for every model operation: native depth at two sizes, loop rounds at two sizes, and the class
                           `constant | linear | diverges | exponential` with the configuration flag that causes it
+                          (`serialize`: the model of `into_serializable_value`; `mark-stack` / `collect-stack`: the deepest
+                          native stack of the visitor machine `mStep` on the shape)
+  machine <shape> <n>     the visitor machine against the loop model on the shape at size n: marked sets equal?, deepest
+                          stack, longest queue, |edges|
   text <mode> <shape> <n> the text S expects: `display` (no depth limit) or `host` (Display for SteelVal, `...` below
                           depth 128); answer `text <bytes> <fnv1a-64> <first 48>|<last 48>` or `text none`
   table                   the regenerated traversal table
@@ -147,38 +151,7 @@ def classify (a b : Option Nat) (na nb : Nat) : String :=
     else "exponential"
   | _, _ => "diverges"
 
-/-! ## the prelude's printer (scheme/print.scm) on cyclic values
-
-`display` walks the value in Scheme and stops at a node for which the cycle collector handed out a label.  The labels
-are the expanded nodes met *again while recording* (`CycleCollector::add`), and recording starts at the first mutable
-object.  The printer never sees the slot of a mutable struct field (the accessor unboxes it), so a label on such a slot
-stops nothing. -/
-
-/-- the labels: run the cycle collector and remember the nodes found in `visited` -/
-def ccLabels (c : Cfg) (g : Graph) : Nat → CcSt → List Nat → List Nat
-  | 0, _, labels => labels
-  | f + 1, s, labels =>
-    match s.work with
-    | [] => labels
-    | v :: _ =>
-      let hit := ccExpands (g.kind v) && (s.found || ccSetsFound c (g.kind v) || c.ccTracksAlways) && s.vis.contains v
-      match ccStep c g s with
-      | .done _ => labels
-      | .next s' => ccLabels c g f s' (if hit && !labels.contains v then v :: labels else labels)
-
-/-- where the printer goes from a node it has entered -/
-def printerSons (g : Graph) (v : Nat) : List Nat :=
-  match g.kind v with
-  | .list | .pair | .vec | .mvec | .map | .set => g.sons v
-  | .struct => (g.sons v).map fun j => if g.kind j == .box then (g.sons j).headD j else j   -- fields arrive unboxed
-  | _ => []            -- boxes are handed to `Display for SteelVal`, closures / streams / leaves print a constant
-
-/-- recursion depth of the printer from `v` (cut off after `fuel` levels): it does not enter a labelled node -/
-def preludeDepth (g : Graph) (labels : List Nat) : Nat → Bool → Nat → Nat
-  | 0, _, _ => 0
-  | f + 1, top, v =>
-    if !top && labels.contains v then 1
-    else 1 + maxL ((printerSons g v).map (preludeDepth g labels f false))
+/- the prelude's printer (`ccLabels`, `printerSons`, `preludeDepth`) is part of the model: Model.lean -/
 
 def parseCells (s : String) : List (String × String) :=
   (s.splitOn ",").map fun c =>
@@ -268,6 +241,13 @@ def predictAll (c : Cfg) (shape : String) : List Pred := Id.run do
   out := out ++ [depthPred "prelude-print" "ccTracksAlways" fun g t =>
     let labels := ccLabels c g (bound g) { work := [t], vis := [], found := false } []
     if shape.startsWith "ring:" then preludeDepth g labels fuelD true t else 1]
+  out := out ++ [depthPred "serialize" "serialize" fun g t => serDepth g fuelD t]
+  -- the visitor machine: deepest native stack (must stay ≤ wlFrames whatever the shape) and longest queue
+  out := out ++ [depthPred "mark-stack" "machine" fun g t =>
+    (mProfile g.sons (fun _ => false) (fun _ v => markTracked c g v) (bound g) (mInit [t]) 0 0).1]
+  out := out ++ [depthPred "collect-stack" "machine" fun g t =>
+    (mProfile (ccSons g) (fun v => ccSetsFound c (g.kind v)) (fun found v => ccExpands (g.kind v) && (found || c.ccTracksAlways))
+      (bound g) (mInit [t]) 0 0).1]
   out := out ++ [roundPred "drop" (fun _ => "-") fun g a _ fuel =>
     (iterCount (dropStep g) fuel 0 { work := [a], rc := initRc g a, freed := [] }).map (·.2)]
   return out
@@ -437,6 +417,18 @@ partial def loop (h : IO.FS.Stream) : IO Unit := do
     match expectedText mode shape n.toNat! with
     | some s => IO.println (textLine s)
     | none => IO.println "text none"
+  | ["machine", shape, n] =>
+    let (g, a, _) := buildShape shape n.toNat!
+    let fuel := 400 * (g.size * (g.maxDeg + 2) + 64)
+    let c := scannedCfg'
+    -- only shapes on which the marker ends (the model says so) are asked
+    let wl := iter (wlStep g (markTracked c g)) fuel { work := [a], vis := [] }
+    let m := mProfile (fun v => (g.sons v).reverse) (fun _ => false) (fun _ v => markTracked c g v) fuel (mInit [a]) 0 0
+    let same := match wl, m.2.2 with
+      | some x, some y => x == y
+      | none, none => true
+      | _, _ => false
+    IO.println s!"machine shape={shape} n={n} same={same} stack={m.1} queue={m.2.1} edges={g.edges} ended={m.2.2.isSome}"
   | ["table"] =>
     for e in Gen.table do
       IO.println s!"row {e.1} {e.2.1} {showT e.2.2}"
